@@ -164,11 +164,23 @@ func runC20(c *Ctx) {
 	if wfn != nil && adF != nil {
 		filt := c.fobj("C20-R3", pkg+".(*responseWriter).filterUpstreamAAAA")
 		// on the stripped>0 edge the write crosses AD=false
+		bars := []Barrier{StoreBarrier("AuthenticatedData=false", adF, IsConstBool(false))}
+		if len(instrsWhere(wfn, isPlainCallTo(filt))) == 1 {
+			// `stripped` is one SSA value (a single filter call): a path that left through
+			// stripped>0=true cannot take the false edge of a later test of the same
+			// comparison (F-C20-2: the count is compared once for the flags and once in the
+			// kept>0 arm) — that edge ends the walk instead of counting as an escape; so does
+			// an edge on which the upstream's AD bit is known not to be set (nothing to keep).
+			bars = append(bars, nothingStrippedEdge("stripped>0 tested again (false edge infeasible) / AD not set", filt, adF))
+		}
+		// the writes in question are those of the filter's own result; replies built by
+		// synthesise / buildAResponseAsBasis are covered by the builder clause above
+		fromFilter := filterResultItself(filt)
 		c.AfterEdge("C20-R3", wfn, "AAAA-filtered reply keeps AD", OnCmp("stripped>0", ResultOf(3, filt), token.GTR, IsConstInt(0), true),
 			func(in ssa.Instruction) bool {
 				cc := callCommon(in)
-				return cc != nil && cc.IsInvoke() && cc.Method.Name() == "WriteMsg"
-			}, StoreBarrier("AuthenticatedData=false", adF, IsConstBool(false)))
+				return cc != nil && cc.IsInvoke() && cc.Method.Name() == "WriteMsg" && len(cc.Args) == 1 && fromFilter(Desc(cc.Args[0]))
+			}, bars...)
 	}
 	c.Floor("C20-R3", 3)
 
